@@ -57,7 +57,7 @@ func (s *hist) fresh() mp.TxP {
 	pay := []int{0, 10, 100, 700, 1500, 2500}[r.Pick(3, 5, 3, 2, 1, 1)]
 	p := mp.TxP{Key: r.Intn(4), Sig: "k1", Nonce: 5000000 + s.n, Pay: pay, To: fmt.Sprintf("k%d", r.Intn(4)), Exec: "none"}
 	p.Fee = need(pay, minFee) + int64(r.Intn(2))*30000
-	if r.Chance(1, 10) {
+	if r.Chance(1, 10) || (s.g.Cfg().Para && r.Bool()) {
 		p.Exec = "para"
 	}
 	return p
@@ -119,7 +119,7 @@ func (s *hist) badExpire(kind int) int64 {
 	}
 }
 
-var kinds = []string{"ok", "badsig", "inpool", "onchain", "expired", "exp_h", "exp_t", "exp_w", "exp_x", "feelow", "badto", "limit", "black", "noncelow", "noncepend", "ethok", "execbad", "feeexact", "expedge"}
+var kinds = []string{"ok", "mnonce", "badsig", "inpool", "onchain", "expired", "exp_h", "exp_t", "exp_w", "exp_x", "feelow", "badto", "limit", "black", "noncelow", "noncepend", "ethok", "execbad", "feeexact", "expedge"}
 
 func (s *hist) submitOne(kind string, group bool) {
 	r, g := s.r, s.g
@@ -196,6 +196,13 @@ func (s *hist) submitOne(kind string, group bool) {
 		all[0].Sig = "eth"
 		all[0].Key = r.Intn(3)
 		all[0].Nonce = int64(r.Range(0, 6))
+	case "mnonce":
+		// an eth-signed member behind the head whose nonce is below the sender's current nonce or pending
+		if group {
+			j := 1 + r.Intn(len(all)-1)
+			all[j].Sig, all[j].Key, all[j].Nonce = "eth", r.Intn(3), int64(r.Range(0, 4))
+			v = j
+		}
 	case "limit":
 		// fill the sender of member v up to the limit first
 		key := all[v].Key
@@ -251,6 +258,18 @@ func (s *hist) submitOne(kind string, group bool) {
 		g.PushID(oid)
 	case "ethok":
 		g.Do(fmt.Sprintf("nonce %d %d", rec.Snd, r.Intn(int(rec.Nonce)+1)))
+	case "mnonce":
+		if group {
+			m := rec.Members[v]
+			if r.Bool() {
+				g.Do(fmt.Sprintf("nonce %d %d", m.Snd, m.Tx.Nonce+1))
+			} else {
+				q := s.fresh()
+				q.Sig, q.Key, q.Nonce, q.Exp, q.Pay = "eth", m.P.Key, m.Tx.Nonce, 0, 10
+				q.Fee = need(10, minFee) + 9
+				g.PushID(g.Define(q))
+			}
+		}
 	}
 	g.SubmitID(id)
 	out.Stat("scenario_"+kind, 1)
@@ -273,7 +292,13 @@ func history(h *mp.H, r *gen.Rand, idx int) {
 	if r.Chance(1, 10) {
 		capn = int64(r.Range(1, 2))
 	}
-	g.EnvRaw(mp.EnvCfg{Cap: capn, ShMax: capn, Per: int64(r.Range(1, 3)), Last: int64(r.Range(1, 4)), MinFee: minFee, MaxRate: 10000000,
+	// every fourth history runs on a para-chain node: main-chain executors ("none") are then
+	// "forwarded to the main chain" and skip the basic checks (types.IsForward2MainChainTx)
+	para := idx%4 == 2
+	if para {
+		out.Stat("scenario_para_history", 1)
+	}
+	g.EnvRaw(mp.EnvCfg{Cap: capn, ShMax: capn, Per: int64(r.Range(1, 3)), Last: int64(r.Range(1, 4)), MinFee: minFee, MaxRate: 10000000, Para: para,
 		Height: hh0, BlkTime: bt0, Now: bt0 + int64(r.Intn(30))})
 	// some initial pool / chain state
 	for i := r.Intn(4); i > 0; i-- {
@@ -290,6 +315,9 @@ func history(h *mp.H, r *gen.Rand, idx int) {
 	for i := 0; i < nsub; i++ {
 		kind := kinds[(idx+i*7+r.Intn(3))%len(kinds)]
 		grp := r.Chance(1, 3)
+		if kind == "mnonce" {
+			grp = true
+		}
 		if strings.HasPrefix(kind, "exp") {
 			grp = r.Chance(3, 5) // expiry clauses matter most on members of groups
 		}
